@@ -198,14 +198,16 @@ def finishRun (c : Cfg) (st : StB) (s : Nat) (x : Exit) (pick : Nat) : Option St
     match stepA c st.a (.finish s r) with
     | none => none
     | some a' =>
-      -- (`_failed_timeout` was recorded when the loop was left: `exitLoop`; `_failed_critical` is assigned here)
-      some { st with a := a', pcB := setAt st.pcB s .over, failC := setAt st.failC s (x == .critical) }
+      -- (`_failed_timeout` and `_failed_critical` were recorded when the loop was left: `exitLoop`)
+      some { st with a := a', pcB := setAt st.pcB s .over }
 
 /-- the run of `s` leaves its main loop for reason `x`: `_tidy_tasks(pending)` cancels what is left;
-    on expiry (`_abort_on_timeout`) `_failed_timeout` is recorded first, before the clean-up -/
+    on expiry (`_abort_on_timeout`) `_failed_timeout`, on a critical failure `_failed_critical`, is recorded first,
+    before the clean-up -/
 def exitLoop (_c : Cfg) (st : StB) (s : Nat) (x : Exit) (a' : StA) : StB :=
   { st with a := a', pcB := setAt st.pcB s (.tidy x), deadline := setAt st.deadline s none,
-            failT := setAt st.failT s (st.failT s || x == .timeout) }
+            failT := setAt st.failT s (st.failT s || x == .timeout),
+            failC := setAt st.failC s (st.failC s || x == .critical) }
 
 /-- layer-B bookkeeping when `co_run` of `s` begins -/
 def beginB (c : Cfg) (st : StB) (s : Nat) (a' : StA) : StB :=
